@@ -34,6 +34,7 @@ fn offchain_weights() -> CWeights {
 		async_b: 10,
 		complete_b: 14,
 		snapshot_b: 8,
+		config_b: 3,
 		restart_b: 2,
 		force_close: 0,
 		mine: 2,
@@ -79,7 +80,7 @@ fn strat(w: CWeights, min_ops: usize, max_ops: usize) -> impl Strategy<Value = C
 					*v = (*v).max(200_000);
 				}
 				let mut head = vec![
-					COp::Fwd(FwdSend { route: 0, amt: FwdAmt::Base(Amt::Abs(qa)), fee_adj: 0, delta_adj: 0, final_delta: 70 }),
+					COp::Fwd(FwdSend { route: 0, amt: FwdAmt::Base(Amt::Abs(qa)), fee_adj: 0, delta_adj: 0, final_delta: 70, use_prev: 0 }),
 					COp::Flush,
 					COp::Base(Op::DecodeAdds { node: 30_000 }),
 					COp::SnapshotB,
@@ -110,7 +111,7 @@ fn strat(w: CWeights, min_ops: usize, max_ops: usize) -> impl Strategy<Value = C
 			if two {
 				spec.topo = Topology::Line3Parallel;
 				spec.value_sat = vec![spec.value_sat[0].max(300_000)];
-				let send = |route: u16, amt: u64| COp::FwdReady(FwdSend { route, amt: FwdAmt::Base(Amt::Abs(amt)), fee_adj: 0, delta_adj: 0, final_delta: 70 });
+				let send = |route: u16, amt: u64| COp::FwdReady(FwdSend { route, amt: FwdAmt::Base(Amt::Abs(amt)), fee_adj: 0, delta_adj: 0, final_delta: 70, use_prev: 0 });
 				// routes 2 and 3 (of 4) of a Line3Parallel world: node 2 -> node 0 over channel 1 resp. channel 2, then channel 0
 				let mut head = vec![
 					send(40_000, a1),
@@ -320,6 +321,8 @@ fn outcome_label_list(o: &Outcome) -> Vec<String> {
 	add(st.knowledge_lost > 0, "preimage-lost-in-crash-before-durable");
 	add(st.reforwards_after_undelivered > 0, "re-forward-after-undelivered-add-on-closed-channel");
 	add(st.non_strict_forwards > 0, "forwarded-over-another-channel-to-the-same-peer");
+	add(st.config_updates > 0, "forwarding-policy-changed");
+	add(st.admissions_after_config_update > 0, "forward-admitted-after-a-policy-change");
 	add(st.refused_forward_still_pending > 0, "obs:unforwarded-htlc-still-pending-after-restarts");
 	add(o.dist[1] > 0, "disturbance:async-update-in-flight-at-fulfil");
 	add(o.dist[2] > 0, "disturbance:disconnect");
@@ -368,7 +371,7 @@ struct CrashCase {
 }
 
 fn exact_send() -> impl Strategy<Value = FwdSend> + Clone {
-	(any::<u16>(), prop_oneof![3 => (1_000_000u64..40_000_000).prop_map(Amt::Abs), 1 => amt_strategy()]).prop_map(|(route, a)| FwdSend { route, amt: FwdAmt::Base(a), fee_adj: 0, delta_adj: 0, final_delta: 70 })
+	(any::<u16>(), prop_oneof![3 => (1_000_000u64..40_000_000).prop_map(Amt::Abs), 1 => amt_strategy()]).prop_map(|(route, a)| FwdSend { route, amt: FwdAmt::Base(a), fee_adj: 0, delta_adj: 0, final_delta: 70, use_prev: 0 })
 }
 
 fn crash_strat() -> impl Strategy<Value = CrashCase> {
@@ -442,7 +445,7 @@ fn crash_strat() -> impl Strategy<Value = CrashCase> {
 			for v in spec.value_sat.iter_mut() {
 				*v = (*v).max(200_000);
 			}
-			setup.push(COp::FwdReady(FwdSend { route: pay, amt: FwdAmt::Base(Amt::Abs(6_000_000)), fee_adj: 0, delta_adj: 0, final_delta: 70 }));
+			setup.push(COp::FwdReady(FwdSend { route: pay, amt: FwdAmt::Base(Amt::Abs(6_000_000)), fee_adj: 0, delta_adj: 0, final_delta: 70, use_prev: 0 }));
 			setup.push(COp::SnapshotB);
 			if !solo {
 				steps.insert(0, COp::ClaimThen { pay, k, then });
